@@ -38,7 +38,7 @@ partial def drainAll (s : Sys) (rng : UInt64) : Sys × UInt64 :=
   let i := (r % (UInt64.ofNat s.pool.length)).toNat
   drainAll (deliver s i) rng
 
-def sysKinds : List String := ["p", "q"]
+def sysKinds : List String := ["p", "q", "pp"]   -- one kind name is a prefix of another
 def sysIds : List String := ["1", "2", "e/7"]   -- an id may contain "/" (only kind names may not)
 
 def observeSys (s : Sys) (order live : List String) : String :=
